@@ -393,13 +393,15 @@ def rule_expand_eval(chk):
                 if "panicking" in str(e):
                     bad = bad or "expanding `%s` aborts (%s)" % (" ".join(map(str, toks)), str(e)[:60])
                     continue
-                return chk.unreadable("C12.expand/readable", "apply_macros", e, where(am))
+                chk.note("C12.expand: apply_macros is not readable (%s); the shape rules C12.args / C12.term decide" % str(e)[:80])
+                return False
             if isinstance(r, I.Enum) and r.variant == "Ok":
                 got = ("ok", [_untok(t) for t in r.fields["0"]])
             elif isinstance(r, I.Enum) and r.variant == "Err":
                 got = ("err", getattr(r.fields.get("0"), "variant", "?"))
             else:
-                return chk.unreadable("C12.expand/readable", "apply_macros", "result %r" % (r,), where(am))
+                chk.note("C12.expand: apply_macros result not readable; the shape rules C12.args / C12.term decide")
+                return False
             if got[0] != want[0] or (got[0] == "ok" and got[1] != want[1]):
                 show = lambda x: " ".join(map(str, x[1])) if x[0] == "ok" else "error (%s)" % x[1]
                 bad = bad or "with %s, `%s` expands to `%s`; textual substitution gives `%s`" % (
